@@ -39,10 +39,11 @@ type c19Ev struct {
 	n int64
 }
 
-// c19Bound checks sum(n_i..n_j) <= rate*1.01*(t_j - t_i) + burst for all i <= j. Returns the worst excess.
+// c19Bound checks sum(n_i..n_j) <= 1.01*(rate*(t_j - t_i) + burst) for all i <= j. Returns the worst excess.
 func c19Bound(evs []c19Ev, rate float64, burst float64) (excess float64, at c19Ev, span time.Duration) {
 	sort.SliceStable(evs, func(a, b int) bool { return evs[a].t < evs[b].t })
 	rp := rate * 1.01
+	burst *= 1.01 // "within the limiter's 1% granularity" (its tokens arrive in quanta at tick boundaries)
 	var cum float64
 	minv := 0.0
 	minT := time.Duration(0)
@@ -71,8 +72,8 @@ func c19Run(t *testing.T, r *vk.Reporter, id string, c *c19Case) (kind, detail s
 		var wg sync.WaitGroup
 		var mu sync.Mutex
 		var maxMsg int64
-		lastTxDone, lastRxWriteDone := time.Duration(0), time.Duration(0)
-		_ = lastRxWriteDone
+		var txFailed int
+		var txSpans [][2]time.Duration // [start, done] of every server-side writer: while one is inside, tx is backlogged
 		var seedMu sync.Mutex
 		seedRng := rand.New(rand.NewPCG(rng.Uint64(), 99))
 		nextSeed := func() uint64 {
@@ -105,20 +106,24 @@ func c19Run(t *testing.T, r *vk.Reporter, id string, c *c19Case) (kind, detail s
 							if c.IdleGap {
 								time.Sleep(5 * time.Second)
 							}
+							t0 := time.Since(start)
 							for left > 0 {
 								sz := c.Sizes[lr.IntN(len(c.Sizes))]
 								if sz > left {
 									sz = left
 								}
 								if _, err := conn.Write(make([]byte, sz)); err != nil {
+									// the session died under this writer (in plain mode undecodable bytes can
+									// close a session); the tokens it had reserved for this record are gone
+									mu.Lock()
+									txFailed++
+									mu.Unlock()
 									return
 								}
 								left -= sz
 							}
 							mu.Lock()
-							if d := time.Since(start); d > lastTxDone {
-								lastTxDone = d
-							}
+							txSpans = append(txSpans, [2]time.Duration{t0, time.Since(start)})
 							mu.Unlock()
 						}()
 					}
@@ -251,18 +256,51 @@ func c19Run(t *testing.T, r *vk.Reporter, id string, c *c19Case) (kind, detail s
 					}
 					return
 				}
-				kind, detail, known = name+"-rate-exceeded", fmt.Sprintf("%s: within an interval of %v ending at t=%v the server moved %.0f bytes more than rate x t x 1.01 + one second's worth (rate %d B/s, %d records)", name, span, at.t, ex, c.Rate, len(evs)), false
+				kind, detail, known = name+"-rate-exceeded", fmt.Sprintf("%s: within an interval of %v ending at t=%v the server moved %.0f bytes more than (rate x t + one second's worth) x 1.01 (rate %d B/s, %d records)", name, span, at.t, ex, c.Rate, len(evs)), false
 				return
 			}
 			var total int64
 			for _, e := range evs {
 				total += e.n
 			}
-			if !c.IdleGap && c.Flood != "closed-stream" { // (that scenario starts with two idle seconds)
-				// backlogged from the first to the last grant: must not be held below the rate
+			if name == "rx" && !c.IdleGap && c.Flood != "closed-stream" { // (that scenario starts with two idle seconds)
+				// the unlimited client has put everything on the wire at once: backlogged from the first
+				// to the last grant, so the receiver must not be held below the rate
 				T := (evs[len(evs)-1].t - evs[0].t).Seconds()
 				if float64(total) < rate*T*0.99-float64(maxMsg) {
 					kind, detail = name+"-held-below-rate", fmt.Sprintf("%s: a backlogged sender moved only %d bytes in %.2f virtual seconds at a configured rate of %d B/s", name, total, T, c.Rate)
+				}
+			}
+			if name == "tx" {
+				// server-side writers start when their stream is accepted (which itself waits for upload
+				// tokens), so tx is known to be backlogged only while some writer is inside its loop:
+				// every maximal interval covered by writer spans must move at least rate x length x 0.99
+				mu.Lock()
+				spans := append([][2]time.Duration{}, txSpans...)
+				mu.Unlock()
+				sort.Slice(spans, func(a, b int) bool { return spans[a][0] < spans[b][0] })
+				for i := 0; i < len(spans); {
+					S, E := spans[i][0], spans[i][1]
+					j := i + 1
+					for j < len(spans) && spans[j][0] <= E {
+						if spans[j][1] > E {
+							E = spans[j][1]
+						}
+						j++
+					}
+					i = j
+					var moved int64
+					for _, e := range evs {
+						if e.t >= S && e.t <= E {
+							moved += e.n
+						}
+					}
+					mu.Lock()
+					lostReservations := float64(txFailed) * float64(maxMsg)
+					mu.Unlock()
+					if T := (E - S).Seconds(); float64(moved) < rate*T*0.99-float64(maxMsg)-lostReservations {
+						kind, detail = name+"-held-below-rate", fmt.Sprintf("%s: writers were continuously backlogged from t=%v to t=%v, yet only %d bytes left in those %.2f virtual seconds at a configured rate of %d B/s", name, S, E, moved, T, c.Rate)
+					}
 				}
 			}
 			r.Max("virtual_seconds_"+name, int64((evs[len(evs)-1].t).Seconds()))
@@ -310,6 +348,11 @@ func TestVerif_C19(t *testing.T) {
 		c.Volume = min(c.Volume, r.Pick(400, 2000)*avg/(c.Sessions*c.Streams)+1)
 		if i%6 == 4 && c.Dir != "tx" {
 			c.Flood = []string{"garbage", "closed-stream"}[(i/6)%2]
+			if c.Flood == "garbage" && c.Method == EncryptionMethodPlain {
+				// without authentication arbitrary bytes ARE frames (of random streams, with random
+				// flags): "records the session drops" exist only under an AEAD method
+				c.Method = methods[1+i%3]
+			}
 			if c.Sizes[len(c.Sizes)-1] > rigMax {
 				c.Sizes = []int{1400, 4096}
 			}
